@@ -30,6 +30,8 @@ type Spec struct {
 	// Prepare builds the child binary (generated-program properties). When
 	// nil the running executable is its own child.
 	Prepare func(p *Parent) (binFor func(batch int) string, err error)
+	// RerunSec is the watchdog of the isolated re-runs that confirm a hang (default 60).
+	RerunSec int
 	// Race marks a race-detector build: GORACE logs are collected and every
 	// report block is a violation.
 	Race bool
@@ -295,10 +297,14 @@ func (p *Parent) runBatch(bin string, b int, only string, timeout int) (*BatchRe
 	// Re-run that single case alone to confirm.
 	died, hung := 0, 0
 	tries := 2
+	rerunSec := 60
+	if p.Spec.RerunSec > 0 {
+		rerunSec = p.Spec.RerunSec
+	}
 	var tail2 string
 	for i := 0; i < tries; i++ {
 		o2 := filepath.Join(p.Scratch, fmt.Sprintf("b%03d-rerun%d.json", b, i))
-		e2, to2 := run(key, o2, 120)
+		e2, to2 := run(key, o2, rerunSec)
 		r2 := readResult(o2)
 		if r2 != nil && r2.Done && e2 == 0 {
 			// Completed alone: keep anything it reported.
@@ -318,7 +324,7 @@ func (p *Parent) runBatch(bin string, b int, only string, timeout int) (*BatchRe
 	case died == tries:
 		viols = append(viols, Violation{Class: classifyDeath(tail2), CaseKey: key, Batch: b, What: "process-fatal failure (reproduced in isolation) in case " + desc, Detail: map[string]interface{}{"case": desc, "log_tail": tail2}})
 	case hung == tries:
-		viols = append(viols, Violation{Class: "", CaseKey: key, Batch: b, What: "case does not terminate (isolated re-runs exceeded 120 s twice): " + desc, Detail: map[string]interface{}{"case": desc, "log_tail": tail2}})
+		viols = append(viols, Violation{Class: "", CaseKey: key, Batch: b, What: fmt.Sprintf("case does not terminate (isolated re-runs exceeded %d s twice): %s", rerunSec, desc), Detail: map[string]interface{}{"case": desc, "log_tail": tail2}})
 	default:
 		incon++
 		fmt.Printf("INCONCLUSIVE batch %d: child failed in case %s but the case completed in isolation\n", b, key)
